@@ -22,7 +22,7 @@ func init() {
 		&Rule{ID: "EX-SETALG", Doc: "set equality is inclusion in both directions, union and intersection add an element only if the result does not hold it yet, and the length of a set is not the length of its representation: no result depends on a repeated element", Run: ruleEXSetAlg, Min: 5},
 		&Rule{ID: "FX-BIND", Doc: "a rule variable is bound only by MatchedVariables.Insert (first binding under 'unbound', otherwise the verdict is Equal with the existing binding); nothing else writes a binding map except Clone and the nil initialisation", Run: ruleFXBind, Min: 3},
 		&Rule{ID: "EX-ARITY", Doc: "per op kind, every way through one step of Evaluate pops the operator's operands (value 0, unary 1, binary 2: right first, then left), evaluates that very op on them and pushes its result", Run: ruleEXArity, Min: 3},
-		&Rule{ID: "EX-STACK", Doc: "Evaluate tests every Push/Pop error and succeeds only with exactly one value left", Run: ruleEXStack, Min: 8},
+		&Rule{ID: "EX-STACK", Doc: "Evaluate tests every Push/Pop error and succeeds only with exactly one value left", Run: ruleEXStack, Min: 4},
 		&Rule{ID: "FX-EQUAL", Doc: "every Term.Equal is type-strict: the comma-ok of the assertion to the receiver's own type gates any true result", Run: ruleFXEqual, Min: 7},
 		&Rule{ID: "FX-UNIFY", Doc: "the bool result of every MatchedVariables.Insert controls a branch", Run: ruleFXUnify, Min: 1},
 	)
@@ -164,6 +164,46 @@ func ruleEXArith(p *Prog, r *Reporter) {
 							derivesFromParam(cc.Args[2], ev.Params[2]) && !derivesFromParam(cc.Args[2], ev.Params[1])
 					} else {
 						r.Bad(pos, p.FuncName(ev), "big.Int."+m, "operator "+opn+" computes with big.Int."+m)
+					}
+				}
+			}
+		}
+		if !found {
+			// through a helper that receives the big.Int method as a method expression: helper(left, right, (*big.Int).Op)
+			for _, c := range callsIn(ev) {
+				cc := c.Common()
+				h := cc.StaticCallee()
+				if h == nil || !p.isRepoFunc(h) || h.Blocks == nil {
+					continue
+				}
+				for ai, a := range cc.Args {
+					mf, isF := unwrap(a).(*ssa.Function)
+					if !isF || mf.Object() == nil || mf.Object().Pkg() == nil || mf.Object().Pkg().Path() != "math/big" || ai >= len(h.Params) {
+						continue
+					}
+					pos = p.instrPos(c)
+					if mf.Object().Name() != opn {
+						r.Bad(pos, p.FuncName(ev), "big.Int."+mf.Object().Name(), "operator "+opn+" computes with big.Int."+mf.Object().Name())
+						continue
+					}
+					// which arguments of the helper are left and right, and how the helper applies the method
+					li, ri := -1, -1
+					for k, x := range cc.Args {
+						if derivesFromParam(x, ev.Params[1]) && !derivesFromParam(x, ev.Params[2]) {
+							li = k
+						}
+						if derivesFromParam(x, ev.Params[2]) && !derivesFromParam(x, ev.Params[1]) {
+							ri = k
+						}
+					}
+					for _, hc := range callsIn(h) {
+						hcc := hc.Common()
+						if hcc.Value != ssa.Value(h.Params[ai]) || len(hcc.Args) != 3 || li < 0 || ri < 0 {
+							continue
+						}
+						found = true
+						okOrder = derivesFromParam(hcc.Args[1], h.Params[li]) && !derivesFromParam(hcc.Args[1], h.Params[ri]) &&
+							derivesFromParam(hcc.Args[2], h.Params[ri]) && !derivesFromParam(hcc.Args[2], h.Params[li])
 					}
 				}
 			}
@@ -1332,6 +1372,37 @@ func ruleEXArity(p *Prog, r *Reporter) {
 	seenKind := map[string]bool{}
 	nPaths := 0
 	var walk func(b *ssa.BasicBlock, kind string, steps []step, onPath map[*ssa.BasicBlock]bool)
+	var path []*ssa.BasicBlock
+	// resolve: a phi seen along the current path stands for the operand of the edge the path took
+	resolve := func(v ssa.Value) ssa.Value {
+		for i := 0; i < 6; i++ {
+			ph, ok := v.(*ssa.Phi)
+			if !ok {
+				return v
+			}
+			idx := -1
+			for k, b := range path {
+				if b == ph.Block() {
+					idx = k
+				}
+			}
+			if idx <= 0 {
+				return v
+			}
+			prev := path[idx-1]
+			found := false
+			for k, pr := range ph.Block().Preds {
+				if pr == prev {
+					v = ph.Edges[k]
+					found = true
+				}
+			}
+			if !found {
+				return v
+			}
+		}
+		return v
+	}
 	finish := func(kind string, steps []step, at *ssa.BasicBlock) {
 		nPaths++
 		pos := p.Pos(ev.Pos())
@@ -1385,7 +1456,7 @@ func ruleEXArity(p *Prog, r *Reporter) {
 				}
 				if okFlow {
 					res := extractOf(e, 0)
-					if len(res) == 0 || unwrap(pushes[0].Call.Args[len(pushes[0].Call.Args)-1]) != res[0] {
+					if len(res) == 0 || unwrap(resolve(unwrap(pushes[0].Call.Args[len(pushes[0].Call.Args)-1]))) != res[0] {
 						okFlow, why = false, "the pushed value is not the operator's result"
 					}
 				}
@@ -1403,6 +1474,8 @@ func ruleEXArity(p *Prog, r *Reporter) {
 		}
 		onPath[b] = true
 		defer delete(onPath, b)
+		path = append(path, b)
+		defer func() { path = path[:len(path)-1] }()
 		for _, in := range b.Instrs {
 			if c, ok := in.(*ssa.Call); ok {
 				if f := c.Call.StaticCallee(); f != nil && p.pkgShort(f) == "datalog" && (f.Name() == "Pop" || f.Name() == "Push") {
